@@ -5,7 +5,7 @@
    once available; for composite indicators they are decided by correspondence + falsifier. *)
 From Coq Require Import ZArith List String Bool.
 From Hexital Require Import Base.Prelude Base.Num Model.Manager Model.Candle Model.Readings Model.Engine
-  Proofs.AccessProofs.
+  Proofs.AccessProofs Proofs.EngineProofs.
 Import ListNotations.
 
 Theorem C14_purge_exact :
@@ -18,3 +18,15 @@ Theorem C14_purge_exact :
     (forall sub nm, ~ In (sub, nm) (tree_names O FUEL I) -> lookup_own O sub (p c') nm = lookup_own O sub (p c) nm).
 Proof. exact purge_exact. Qed.
 Print Assumptions C14_purge_exact.
+
+(* calling calculate() again changes nothing (leaf indicators that are pure and causal:
+   HLA, TR, OBV, EMA have the obligations discharged in Props/C01.v) *)
+Theorem C14_calculate_idempotent_leaf :
+  forall (O : NumOps) (I : ind O) (calc : store O -> Z -> res (val O)),
+  i_subs O I = [] /\ i_managed O I = [] ->
+  (forall rec st i, calc_reading O rec I st i = (v <- calc st i ;; Ok (v, st))) ->
+  Causal O I calc ->
+  forall (ds : list (cd (payload O))) st, Forall (fresh O I) ds ->
+  calculate O I ds = Ok st -> calculate O I st = Ok st.
+Proof. intros O I calc Hl Hp Hc ds st Hf H. eapply engine_calculate_idempotent; eassumption. Qed.
+Print Assumptions C14_calculate_idempotent_leaf.
